@@ -213,38 +213,41 @@ def _run(ctx):
             return {keys_of(e.left), keys_of(e.right)} == set(PENDING)
         return False
 
+    # decided per path to the notification (so `if common: ... elif ...: ... else: return`, guard clauses, conditional
+    # expressions and inverted tests all read the same): the notified height is either max(common) with common non-empty,
+    # or _highest_block on a path that established max(_touched_mp) == _highest_block
+    from .. import paths as P
     n_h = 0
-    for st, rhs in hdefs:
+    forms = {}
+    for pth in P.paths(mn.node.body):
+        evs = [env_ for st_, env_ in pth.events if st_ is q.stmt(ncall)]
+        if not evs:
+            continue
+        h = P.subst(hvar, evs[0])
+        ok, why, label = False, f'the notified height `{norm(h)}` is not one of the two agreed forms', 'other'
+        if isinstance(h, ast.Call) and norm(h.func) == 'max' and len(h.args) == 1 and is_common_expr(h.args[0]):
+            label = 'max(common)'
+            ctext = norm(h.args[0])
+            ok = any(pol and isinstance(t, ast.expr) and norm(t) == ctext for t, pol, _n in pth.conds)
+            why = 'max(common) taken without the guard that the intersection is non-empty'
+        elif cpath(h) == 'self._highest_block':
+            label = 'highest block'
+            for t, pol, _n in pth.conds:
+                if isinstance(t, ast.Compare) and len(t.ops) == 1 and isinstance(t.ops[0], (ast.Eq, ast.NotEq)) \
+                        and pol == isinstance(t.ops[0], ast.Eq):
+                    sides = [t.left, t.comparators[0]]
+                    for i in (0, 1):
+                        m, o = sides[i], sides[1 - i]
+                        if isinstance(m, ast.Call) and norm(m.func) == 'max' and len(m.args) == 1 \
+                                and cpath(m.args[0]) == 'self._touched_mp' and cpath(o) == 'self._highest_block':
+                            ok = True
+            why = 'highest block used as the height without the guard max(_touched_mp) == _highest_block'
+        prev = forms.get(label)
+        forms[label] = (ok and (prev[0] if prev else True), why if not ok else (prev[1] if prev else why))
+    for label, (ok, why) in sorted(forms.items()):
         n_h += 1
-        conds = pr.control_conditions(st, mn.node)
-        ok, why = False, f'definition `{norm(st)}` is not one of the two agreed forms'
-        if isinstance(rhs, ast.Call) and norm(rhs.func) == 'max' and len(rhs.args) == 1 and isinstance(rhs.args[0], ast.Name):
-            cv = rhs.args[0].id
-            cdefs = d.get(cv, [])
-            if len(cdefs) == 1 and is_common_expr(cdefs[0][1]):
-                if any(b and isinstance(t, ast.Name) and t.id == cv for t, b, _p in conds):
-                    ok = True
-                else:
-                    why = f'max({cv}) taken without the guard that {cv} is non-empty'
-            else:
-                why = f'{cv} is not the intersection of the keys of both pending containers'
-        elif cpath(rhs) == 'self._highest_block':
-            # needs guard: max(<mp>) == self._highest_block (so the height is the newest mempool key)
-            g = False
-            negs = []
-            for t, b, p in conds:
-                for cj in (pr.conjuncts(t) if b else []):
-                    if isinstance(cj, ast.Compare) and len(cj.ops) == 1 and isinstance(cj.ops[0], ast.Eq):
-                        sides = [cj.left, cj.comparators[0]]
-                        for i in (0, 1):
-                            m, o = sides[i], sides[1 - i]
-                            if isinstance(m, ast.Call) and norm(m.func) == 'max' and len(m.args) == 1 \
-                                    and cpath(m.args[0]) == 'self._touched_mp' and cpath(o) == 'self._highest_block':
-                                g = True
-            ok = g
-            if not g:
-                why = 'highest block used as the height without the guard max(_touched_mp) == _highest_block'
-        ctx.check(ok, 'C20.HEIGHT', ctx.key(mn, st), 'notified height is agreed by both sources', why, loc=ctx.loc(mn, st))
+        ctx.check(ok, 'C20.HEIGHT', ctx.key(mn, None, f'notified height: {label}'), 'notified height is agreed by both sources', why,
+                  loc=ctx.loc(mn, ncall))
     ctx.floor('C20.HEIGHT', 2, n_h)
     # every path to the notification defines the height (no other definition / fall-through)
     defnodes = {cfg.node(st) for st, _ in hdefs}
